@@ -23,10 +23,24 @@ Inductive case :=
 Definition resolve {B} (rs : list resource) (ss : list scope) (items : list (nat * nat * B)) : list (item B) :=
   map (fun t => mkItem (nth (fst (fst t)) rs (mkRes [] [])) (nth (snd (fst t)) ss (mkScope [] [] [] [])) (snd t)) items.
 
-Definition tobs_eqb : tobs -> tobs -> bool :=
-  eqb_of (list_eq_dec (pair_eq_dec pb_resource_eq_dec (list_eq_dec (pair_eq_dec pb_scope_eq_dec (list_eq_dec pb_span_eq_dec))))).
-Definition lobs_eqb : lobs -> lobs -> bool :=
-  eqb_of (list_eq_dec (pair_eq_dec pb_resource_eq_dec (list_eq_dec (pair_eq_dec pb_scope_eq_dec (list_eq_dec pb_lrec_eq_dec))))).
+(** Resource groups come out of a Go map: payloads are compared up to the order of the resource
+    groups (and of the scope groups inside them); the order of the items is significant. *)
+Fixpoint remove_first {A} (eq : A -> A -> bool) (x : A) (l : list A) : option (list A) :=
+  match l with
+  | [] => None
+  | y :: r => if eq x y then Some r else option_map (cons y) (remove_first eq x r)
+  end.
+Fixpoint perm_eqb {A} (eq : A -> A -> bool) (a b : list A) : bool :=
+  match a with
+  | [] => is_nil b
+  | x :: a' => match remove_first eq x b with Some b' => perm_eqb eq a' b' | None => false end
+  end.
+Definition groups_eqb {P} (D : forall a b : P, {a = b} + {a <> b})
+  : list (pb_resource * list (pb_scope * list P)) -> list (pb_resource * list (pb_scope * list P)) -> bool :=
+  perm_eqb (fun a b => eqb_of pb_resource_eq_dec (fst a) (fst b) &&
+                       perm_eqb (eqb_of (pair_eq_dec pb_scope_eq_dec (list_eq_dec D))) (snd a) (snd b)).
+Definition tobs_eqb : tobs -> tobs -> bool := groups_eqb pb_span_eq_dec.
+Definition lobs_eqb : lobs -> lobs -> bool := groups_eqb pb_lrec_eq_dec.
 Definition mobs_eqb : pb_rmetrics -> pb_rmetrics -> bool := eqb_of pb_rmetrics_eq_dec.
 Definition zobs_eqb : option (list zobs) -> option (list zobs) -> bool := eqb_of (opt_eq_dec (list_eq_dec zobs_eq_dec)).
 
